@@ -766,6 +766,9 @@ class Gen:
         elif value_kind == "obj":
             val = {"f": "v" + k, "n": self.r.choice([0, 1]), "key": "f", "l": ["p" + k, "q" + k, "r" + k][: self.r.choice([2, 3])],
                    "o": {"k": "w" + k, "arr": [{"x": "x%s_%d" % (k, i)} for i in range(2)]}}
+        elif value_kind == "aoa":
+            val = [{"tag": "g%s_%d" % (k, i), "items": ["c%s_%d_%d" % (k, i, j) for j in range(self.r.choice([1, 2, 3]))],
+                    "sub": {"items": ["d%s_%d" % (k, i)]}} for i in range(self.r.choice([1, 2, 3]))]
         elif value_kind == "str":
             val = "t" + k
         elif value_kind == "idx":
@@ -859,6 +862,15 @@ class Gen:
             c, x, val = self.producer("arr2")
             i, j = self.fresh("i"), self.fresh("j")
             inner = self.fold(i, j, self.use([j, i]), nested=True)
+            return self.seq([c, self.fold(x, i, inner)])
+        if p < 0.93:
+            # (added after the seeded change C17-nested-fold-lens-appended-twice was missed) the iterable of the inner fold is a
+            # lens applied to the ITERATOR of the enclosing fold (its own branch of create_scalar_wl_iterable)
+            self.kind("nested fold over a lens of the outer fold's iterator")
+            c, x, val = self.producer("aoa")
+            i, j = self.fresh("i"), self.fresh("j")
+            src = self.r.choice([i + ".$.items", i + ".$.sub.items"])
+            inner = self.fold(src, j, self.use([j, i + ".$.tag"] + ([i] if self.r.random() < 0.5 else [])), nested=True)
             return self.seq([c, self.fold(x, i, inner)])
         self.kind("fold over a scalar array, iterator copied by ap and stored by a call")
         c, x, val = self.producer("arr2")
